@@ -1,4 +1,5 @@
-"""python -m vf.replay <prop> <case.json>: re-execute one case, print REPLAY-RESULT {...}"""
+"""python -m vf.replay <prop> <case.json> [<case.json> ...]: re-execute cases in one
+fresh process; prints one line `REPLAY-RESULT <path> {...}` per case."""
 
 import importlib
 import json
@@ -7,23 +8,26 @@ import traceback
 
 
 def main(argv):
-    prop, path = argv[:2]
-    d = json.loads(open(path).read())
-    case = d.get("case", d)
+    prop = argv[0]
+    paths = argv[1:]
     from .common import install_speedups
 
     install_speedups()
     mod = importlib.import_module(f"vf.props.{prop}")
-    try:
-        res = mod.replay(case)
-    except BaseException as e:  # noqa
-        traceback.print_exc()
-        res = {"reproduced": None, "error": repr(e)}
-    if res.get("reproduced"):
-        print(f"reproduced: {json.dumps(res.get('sig'), default=str)[:2000]}")
-        if res.get("detail"):
-            print(str(res["detail"])[:6000])
-    print("REPLAY-RESULT " + json.dumps(res, default=str))
+    for path in paths:
+        try:
+            d = json.loads(open(path).read())
+            case = d.get("case", d)
+            res = mod.replay(case)
+        except BaseException as e:  # noqa
+            traceback.print_exc()
+            res = {"reproduced": None, "error": repr(e)[:300]}
+        if res.get("reproduced") and len(paths) == 1:
+            print(f"reproduced: {json.dumps(res.get('sig'), default=str)[:2000]}")
+            if res.get("detail"):
+                print(str(res["detail"])[:6000])
+        out = {k: v for k, v in res.items() if k != "detail"}
+        print("REPLAY-RESULT " + path + " " + json.dumps(out, default=str), flush=True)
 
 
 if __name__ == "__main__":
